@@ -126,7 +126,7 @@ def _fix_reorder_match(root):
 
 def make_scratch():
     d = tempfile.mkdtemp(prefix="verif-selftest-")
-    for name in ("src", "Cargo.toml", "Cargo.lock"):
+    for name in ("src", "Cargo.toml", "Cargo.lock", "test"):
         p = os.path.join(REPO, name)
         (shutil.copytree if os.path.isdir(p) else shutil.copy2)(p, os.path.join(d, name))
     return d
